@@ -57,12 +57,20 @@ class C10(Check):
             "0xE9, NUL, 'a', 'B', '0', 'x'} × a position/count lattice {INT64_MIN, INT64_MIN+1, −4..4, INT64_MAX−1, "
             "INT64_MAX, typed null, untyped null, decimals 2.5, −1.5, 1e30, NaN}; arguments stored exactly into variables; "
             "each call evaluated twice (arguments as variables, and as temporaries through identity functions); the results, "
-            "the error code and the argument variables after the call are compared with the Lean model; isnum/num "
+            "the error code and the argument variables after the call are compared with the Lean model; substr/subraw at "
+            "INT64_MIN and hex with pad counts up to INT64_MAX (the regions of the repaired overflow findings) are part of the "
+            "lattice for every string; abs over an integer/decimal lattice and pow over integer pairs (exact modulo 2^64, "
+            "negative exponents, zero base) and mixed/decimal pairs are compared likewise; isnum/num "
             "consistency is checked on the implementation alone (strtod is not modelled). distinct = (built-in, arguments).")
     assumptions = ["strtod (num/isnum of strings) is trusted libc; only isnum(s) <=> num(s) succeeds is checked, on the implementation",
-                   "toupper/tolower are modelled in the C locale (ASCII letters only)"]
+                   "toupper/tolower are modelled in the C locale (ASCII letters only)",
+                   "std::pow / std::abs on doubles (pow with a decimal operand, abs of a decimal) are the platform's libm on both sides "
+                   "(Lean Float.pow / Float.abs): compared bit-exactly, not proved"]
 
     def hazard_kf(self, c, hazard):
+        # A model hazard names a finding id; only an entry with status "known" suppresses anything. All C10 hazard
+        # findings (floatToInt, signedOverflow of substr/subraw/hex, nullDeref of strpos) are "fixed": the model has no
+        # hazard outcome left on these built-ins, and a crash of the implementation is a violation.
         name = c.model_line.split()[1]
         return "C10.%s.%s" % (name, hazard)
 
@@ -94,11 +102,10 @@ class C10(Check):
         strs3 = strings(3)
         base = strs2 if quick else strs3
         nulls = ["N:s0", "N:?0"]
-        # substr family
-        hazpos = ("I:%d" % I64MIN, "D:46293e5939a08cea", "D:7ff8000000000000")
+        # substr family: every position of the lattice with every string — INT64_MIN (the repaired `c - a` overflow of
+        # substr/subraw, commit e2c4824) and the out-of-range decimals (OUT_OF_RANGE since bf3229b) included
         for s in (strings(1) + [[0x61, 0x20, 0x42], [0x61, 0, 0x42, 0xe9]] if quick else strs2):
-            # positions that reach a recorded C hazard (a crash = a probe restart) only with a few strings
-            mypos = pos if len(s) == 3 or s == [0x61] else [q for q in pos if q not in hazpos]
+            mypos = pos
             for a in mypos:
                 add("substr", S(s), a)
                 add("subraw", R(s), a)
@@ -168,7 +175,9 @@ class C10(Check):
             add("chr", "I:%d" % i)
             add("hex", "I:%d" % i)
             add("str", "I:%d" % i)
-            for k in (-1, 0, 1, 2, 8, 15, 16, 17, I64MAX - 20, I64MAX):
+            # pad counts: negative, none, 1..16, beyond 16, and the region of the repaired `n += 1` overflow
+            # (n > INT64_MAX - 15, commit cbe22cc: n is clamped to 16 first)
+            for k in (I64MIN, -1, 0, 1, 2, 8, 15, 16, 17, 31, I64MAX - 20, I64MAX - 15, I64MAX - 14, I64MAX - 1, I64MAX):
                 add("hex", "I:%d" % i, "I:%d" % k)
             add("hash", S(list(b"abc")), "I:%d" % i)
             add("hash", R([0xe9, 0x80, 0xff]), "I:%d" % i)
@@ -185,8 +194,31 @@ class C10(Check):
             add("hash", S(list(b"abc")), v)
             add("raw", "I:2", v)
             add("raw", v)
-        # decimals to text
+        # abs / pow (builtin_abs.cpp after fde74fa: abs(INT64_MIN) wraps; builtin_pow.cpp after eec6e8e: integer x integer
+        # exact modulo 2^64 like `**`, 1/(b**-n) truncated for a negative exponent, DIVIDE_BY_ZERO for 0 ** negative)
         from .c03 import double_lattice
+        absints = sorted(set(ints + [I64MIN + 1, -2, 2, 3, -3, 2 ** 53 + 1, -(2 ** 53) - 1, 2 ** 62, -(2 ** 62), I64MAX - 1]))
+        for i in absints:
+            add("abs", "I:%d" % i)
+        dl = double_lattice()
+        for b in dl + [0x8000000000000000, 0xbff8000000000000, 0xfff0000000000000, 0x7ff8000000000000, 0xc3e0000000000000]:
+            add("abs", "D:%016x" % b)
+        for v in ("N:i0", "N:d0", "N:?0"):
+            add("abs", v)
+        bases = [I64MIN, I64MIN + 1, -(2 ** 32), -16, -3, -2, -1, 0, 1, 2, 3, 7, 10, 16, 255, 2 ** 31, 2 ** 32, 2 ** 32 + 1, 3037000500, 2 ** 53 + 1, I64MAX - 1, I64MAX]
+        exps = [I64MIN, I64MIN + 1, -3, -2, -1, 0, 1, 2, 3, 5, 7, 31, 32, 39, 62, 63, 64, 65, 127, 2 ** 32, I64MAX - 1, I64MAX]
+        for a in bases:
+            for e in exps:
+                add("pow", "I:%d" % a, "I:%d" % e)
+        for _ in range(200 if quick else 4000):
+            add("pow", "I:%d" % self.rng.randint(I64MIN, I64MAX), "I:%d" % self.rng.choice([self.rng.randint(0, 70), self.rng.randint(-5, 5), self.rng.randint(I64MIN, I64MAX)]))
+        for a in ("N:i0", "N:d0", "N:?0", "I:2", "D:4000000000000000"):
+            for e in ("N:i0", "N:d0", "N:?0", "I:3", "D:3fe0000000000000"):
+                add("pow", a, e)
+        for a in ("I:2", "I:-8", "I:0", "D:4004000000000000", "D:c000000000000000", "D:0000000000000000", "D:7ff0000000000000"):
+            for e in ("D:3fe0000000000000", "D:4008000000000000", "D:bff0000000000000", "I:3", "I:-2", "I:0", "D:7ff8000000000000"):
+                add("pow", a, e)
+        # decimals to text
         for b in double_lattice() + [self.rng.getrandbits(64) for _ in range(300 if quick else 5000)]:
             add("str", "D:%016x" % b)
         for _ in range(300 if quick else 5000):
